@@ -172,6 +172,33 @@ def run(ctx):
             bad("production-comparison figure does not carry simulated recovery, cumulative production over M and frac-face pressure against time over tau",
                 dict(days=nd, tau=tau, M=M, p_initial=p0, row_labels=labels, a_producing_day_has_no_date=bool(k % 2 == 1), gas=[float(x) for x in gas], pressure=[None if np.isnan(x) else float(x) for x in pres]),
                 dict(points_drawn=[len(l_[0]) for l_ in l1 + l2], points_expected=int(keep.sum())))
+    # ---------------- two wells plotted one after the other with the figures kept open (a report that collects the figures and saves them
+    # at the end; both calls leave well_name at its default): each call hands out its OWN figure, and the first figure still carries the
+    # first well's curves after the second call
+    kept = []
+    for j_ in range(2):
+        nd = 12 + 9 * j_
+        gas = rng.uniform(5, 50, nd)
+        pres = np.sort(rng.uniform(800, 3000, nd))[::-1].copy()
+        prod = pd.DataFrame({"Days": np.arange(nd), "Gas": gas, "Pressure": pres})
+        par = Parameters()
+        par.add("tau", value=150.0 + 100 * j_)
+        par.add("M", value=2000.0 * (1 + j_))
+        par.add("p_initial", value=6000.0)
+        with warnings.catch_warnings():
+            warnings.simplefilter("ignore")
+            fig_k, (a1_k, a2_k) = plot_production_comparison(prod, pvt, par)
+        kept.append((fig_k, a1_k, a2_k, [(np.array(x, float), np.array(y, float)) for x, y in line_data(a1_k) + line_data(a2_k)]))
+    ev += 1
+    fig0, a10, a20, snap0 = kept[0]
+    now0 = [(np.array(x, float), np.array(y, float)) for x, y in line_data(a10) + line_data(a20)]
+    same0 = len(now0) == len(snap0) == 3 and all(np.array_equal(x1, x2) and np.array_equal(y1, y2) for (x1, y1), (x2, y2) in zip(now0, snap0))
+    if kept[0][0] is kept[1][0] or not same0 or a10 not in fig0.axes:
+        bad("a production-comparison figure that is kept open no longer carries its well's data after the function is called again for another well (same default well name): "
+            "the second call reuses / clears the first figure", dict(calls=2, well_name="default for both", first_well_days=12, second_well_days=21),
+            dict(same_figure_object=bool(kept[0][0] is kept[1][0]), curves_on_first_axes_now=[len(x) for x, _ in now0], curves_on_first_axes_before=[len(x) for x, _ in snap0]))
+    for fig_k, *_ in kept:
+        plt.close(fig_k)
     # ---------------- the same figure WITHOUT filtering, on records whose Days column is not 0, 1, 2, ... (starting at day 1,
     # every other day, monthly): the time axis is Days / tau and the simulation runs on it
     for k in range(4 if ctx.quick else 12):
